@@ -357,6 +357,24 @@ def corpus():
     ]
     out = [_case(c.split()) for c in cs]
     out.append(_case('s0.0 s1.1 p1 b1 p2 B0 p3'.split(), duplex=0))
+    # through the real EventQueue: bursts queued before the dispatcher consumes anything
+    for c in ('s0.0 f p1 p2 p3',                     # three events back to back (envelope aliasing shows here)
+              's0.0 s1.1 p1 p2 u0 p3 p4',            # one burst, consumed at the end
+              's0.0 f p1 p2 b0 f p3 s1.1 p4 f u1 p5',
+              's0.0 s1.1 f p1 B1 p2 f p3 u0 u0 u9',
+              's0.0 p1 s0.1 p2 f r0 p3 p4 u0 p5',
+              's0.0 s1.0 u0 p1'):                    # channel reuse, still an escaping OSError
+        out.append(_case(c.split(), q=1))
+    return out
+
+
+def with_flushes(toks, rng=None, every=False):
+    """flush after every operation (every=True: the schedule of the direct mode) or at random points"""
+    out = []
+    for t in toks:
+        out.append(t)
+        if every or (rng is not None and rng.random() < 0.3):
+            out.append('f')
     return out
 
 
@@ -416,30 +434,47 @@ def generate(rng, tier):
     if tier == 'thorough':
         for h in enumerate_fresh(EXH_LEN):
             yield _case(h)
+        for h in enumerate_fresh(EXH_LEN_Q):
+            yield _case(with_flushes(h, every=True), q=1)
+            if len(h) > 1:
+                yield _case(h, q=1)                  # one burst consumed at the end
         for _ in range(20000):
             yield _case(random_history(rng, 40), duplex=rng.choice([1, 1, 0]))
+        for _ in range(20000):
+            yield _case(with_flushes(random_history(rng, 40), rng), duplex=rng.choice([1, 1, 0]), q=1)
         for _ in range(6000):
             yield _case(random_history(rng, 14, fresh=False), duplex=rng.choice([1, 1, 0]))
+        for _ in range(3000):
+            yield _case(with_flushes(random_history(rng, 14, fresh=False), rng), duplex=rng.choice([1, 1, 0]), q=1)
     else:
         for h in enumerate_fresh(3):
             yield _case(h)
-        for _ in range(2200):
+            if len(h) > 1:
+                yield _case(h, q=1)
+        for _ in range(1500):
             yield _case(random_history(rng, 12), duplex=rng.choice([1, 1, 0]))
-        for _ in range(500):
+        for _ in range(1500):
+            yield _case(with_flushes(random_history(rng, 14), rng), duplex=rng.choice([1, 1, 0]), q=1)
+        for _ in range(300):
             yield _case(random_history(rng, 10, fresh=False), duplex=rng.choice([1, 1, 0]))
+        for _ in range(300):
+            yield _case(with_flushes(random_history(rng, 10, fresh=False), rng), duplex=rng.choice([1, 1, 0]), q=1)
 
 
 def neighbours(case):
     toks = case['ops'].split()
+    q = case.get('q', 0)
     for i in range(len(toks)):
-        yield _case(toks[:i] + toks[i + 1:], case.get('duplex', 1))
+        yield _case(toks[:i] + toks[i + 1:], case.get('duplex', 1), q)
     for i in range(1, len(toks)):
-        yield _case(toks[:i], case.get('duplex', 1))
+        yield _case(toks[:i], case.get('duplex', 1), q)
 
 
 def search(rng):
     out = [_case(h) for h in enumerate_fresh(4)]
+    out += [_case(h, q=1) for h in enumerate_fresh(4) if len(h) > 1]
     out += [_case(random_history(rng, 12)) for _ in range(3000)]
+    out += [_case(with_flushes(random_history(rng, 12), rng), q=1) for _ in range(3000)]
     return out
 
 
@@ -450,7 +485,7 @@ def shrink(case, still_fails):
         changed = False
         toks = cur['ops'].split()
         for i in range(len(toks)):
-            cand = _case(toks[:i] + toks[i + 1:], cur.get('duplex', 1))
+            cand = _case(toks[:i] + toks[i + 1:], cur.get('duplex', 1), cur.get('q', 0))
             if cand['ops'] and still_fails(cand):
                 cur, changed = cand, True
                 break
@@ -468,6 +503,16 @@ def describe(case):
         out.append('break-pending')
     if any(o[0] == 'u' and o[1] >= 3 for o in ops):
         out.append('unsub-unknown-id')
+    if case.get('q', 0):
+        out.append('via-EventQueue')
+        burst = best = 0
+        for o in raw(case):
+            if o[0] == 'p':
+                burst += 1
+                best = max(best, burst)
+            elif o[0] == 'f':
+                burst = 0
+        out.append('publish-burst=%s' % (best if best < 3 else '>=3'))
     return out
 
 
